@@ -43,6 +43,33 @@ HAND = [
     "from t | derive {c = 1} | join (from u | derive {d = 2}) (==k) | group {t.a} (aggregate {s = sum c + d})",
 ]
 
+def nest_family():
+    """sub-pipelines inside sub-pipelines: inline tables created while another inline table is being lowered (declaration
+    order), sub-pipelines with two inputs whose second input leaves through a wildcard / by name (column redirects)"""
+    inner = [
+        ("u", "c"), ("(from u | filter c > 1)", "c"),
+        ("(from u | join v (u.k == v.k) | select {u.k, v.*})", "v.z"),
+        ("(from u | join v (u.k == v.k) | select {u.k, v.*})", "z"),
+        ("(from u | join v (u.k == v.k) | select {u.k, v.z})", "z"),
+        ("(from u | join v (u.k == v.k) | select {u.k, u.c, v.z, w = v.z + 1})", "w"),
+        ("(from u | join (from v | filter z > 1) (u.k == v.k) | select {u.k, v.z})", "z"),
+        ("(from u | join (from v | filter z > 1) (u.k == v.k) | select {u.k, v.*})", "v.z"),
+        ("(from u | join side:left (from v | join (from w | take 2) (==k) | select {v.k, w.q}) (==k) | select {u.k, q})", "q"),
+        ("x = (from_text format:json '[{\"k\": 1, \"z\": 2}]' | filter z > 0)", "x.z"),
+        ("(from u | append (from v | select {k, a, c}) | select {k, c})", "c"),
+        ("(from u | append (from v | join (from w | take 1) (==k) | select {v.k, v.a, w.q}))", "c"),
+        ("(from s\"SELECT * FROM u\" | filter c > 1)", "c"),
+        ("(from (from u | take 3) | join (from [{k = 1, z = 2}]) (==k))", "z"),
+    ]
+    out = []
+    for rel, col in inner:
+        out.append(f"from t | join {rel} (==k) | select {{t.a, {col}}}")
+        out.append(f"from t | join {rel} (==k) | filter {col} > 0 | sort {{{col}}} | take 2")
+        out.append(f"from t | join side:left {rel} (t.a == {col}) | select {{t.k}}")
+        out.append(f"from t | select {{k}} | append (from {rel.split(' = ')[-1] if rel.startswith('x = ') else rel} | select {{k}})")
+        out.append(f"let r = (from t | join {rel} (==k) | select {{t.k, y = {col}}})\nfrom r | join r2 = r (==k) | select {{r.y, r2.k}}")
+    return out
+
 def check(tier):
     rep = Report("C16", tier)
     d = workdir("C16")
@@ -79,6 +106,9 @@ def check(tier):
     for i, s in enumerate(HAND):
         srcs.append({"id": f"h{i}", "src": s})
         srcs.append({"id": f"hd{i}", "src": decl + s})
+    for i, s in enumerate(nest_family()):
+        srcs.append({"id": f"n{i}", "src": s})
+        srcs.append({"id": f"nd{i}", "src": decl + s})
     for f in sorted(glob.glob("/repo/prqlc/prqlc/tests/integration/queries/*.prql")):
         srcs.append({"id": "q-" + os.path.basename(f), "src": open(f).read()})
     write_ndjson(os.path.join(d, "src.ndjson"), srcs)
